@@ -194,7 +194,7 @@ class Prop:
         if x < 0.72: return ('set_tail', [(2, aspath_bytes([(SEQ, [a, b]), (SET, [rng.choice(ASNS), local])]))])
         if x < 0.80: return ('set_tail', [(2, aspath_bytes([(SET, [a])]))])
         if x < 0.88: return ('confed_tail', [(2, aspath_bytes([(SEQ, [a]), (rng.choice([CSEQ, CSET]), [b])]))])
-        if x < 0.94: return ('confed_tail', [(2, aspath_bytes([(rng.choice([CSEQ, CSET]), [a, b])]))])
+        if x < 0.985: return ('confed_tail', [(2, aspath_bytes([(rng.choice([CSEQ, CSET]), [a, b])]))])
         # malformed stream: truncated segment, zero-length segment, one stray byte
         good = aspath_bytes([(SEQ, [a, b])])
         return ('malformed_aspath', [(2, rng.choice([good[:-1], good[:3], [SEQ, 0], [SEQ], good + [SEQ, 0], good + [7]]))])
